@@ -338,6 +338,11 @@ def runeAtEOF (s : St) : St :=
   let s := if s.blen == 0 then { s with bsp := 1 } else s
   { s with r := runeEOF, w := 1 }
 
+/-- `b := p.bs[p.bsp]` is at the cursor -/
+def runeBody (b : Byte) (bq : Nat) (s : St) : M Step :=
+  if b.toNat < 0x80 then runeAscii b bq s
+  else do let s ← runeDecode s; pure (.done s)
+
 /-- one pass from `retry:` -/
 def runeStep (bq : Nat) (s0 : St) : M Step := do
   -- if p.bsp >= uint(len(p.bs)) && p.fill() == 0 { … return runeEOF }
@@ -347,9 +352,7 @@ def runeStep (bq : Nat) (s0 : St) : M Step := do
   else
     match s.front with
     | [] => throw (.oob 1)                            -- p.bs[p.bsp]
-    | b :: _ =>
-      if b.toNat < 0x80 then runeAscii b bq s
-      else do let s ← runeDecode s; pure (.done s)
+    | b :: _ => runeBody b bq s
 
 /-- `retry:` … of `Parser.rune`; `bq` is the local `bquotes`. -/
 def runeLoop : Nat → Nat → St → M St
